@@ -22,6 +22,7 @@ import (
 	"github.com/bronlabs/bron-crypto/pkg/base/curves/k256"
 	"github.com/bronlabs/bron-crypto/pkg/base/curves/p256"
 	"github.com/bronlabs/bron-crypto/pkg/base/curves/pairable/bls12381"
+	"github.com/bronlabs/bron-crypto/pkg/base/curves/pasta"
 	"github.com/bronlabs/bron-crypto/pkg/transcripts"
 	"github.com/bronlabs/bron-crypto/pkg/transcripts/hagrid"
 
@@ -757,6 +758,49 @@ func suites() []h2cSuite {
 	}
 }
 
+// further suites without RFC vectors in the simple format (G2's vectors are compared in h2cmodel.go)
+func moreSuites() []h2cSuite {
+	return []h2cSuite{
+		{name: "bls12381g2", hash: func(dst string, msg []byte) (string, string, bool, error) {
+			_ = bls12381.NewScalarField()
+			c := bls12381.NewG2()
+			p, err := c.HashWithDst(dst, msg)
+			if err != nil {
+				return "", "", false, err
+			}
+			x, _ := p.AffineX()
+			y, _ := p.AffineY()
+			ord := new(big.Int).SetBytes(c.Order().Bytes())
+			s, _ := bls12381.NewScalarField().FromBytesBE(ord.Sub(ord, big.NewInt(1)).Bytes())
+			return vh.Hex(x.Bytes()), vh.Hex(y.Bytes()), p.ScalarMul(s).Add(p).IsZero() && !p.IsZero(), nil
+		}},
+		{name: "pallas", hash: func(dst string, msg []byte) (string, string, bool, error) {
+			c := pasta.NewPallasCurve()
+			p, err := c.HashWithDst(dst, msg)
+			if err != nil {
+				return "", "", false, err
+			}
+			x, _ := p.AffineX()
+			y, _ := p.AffineY()
+			ord := new(big.Int).SetBytes(c.Order().Bytes())
+			s, _ := pasta.NewPallasScalarField().FromBytesBE(ord.Sub(ord, big.NewInt(1)).Bytes())
+			return be(x.Bytes()), be(y.Bytes()), p.ScalarMul(s).Add(p).IsZero() && !p.IsZero(), nil
+		}},
+		{name: "vesta", hash: func(dst string, msg []byte) (string, string, bool, error) {
+			c := pasta.NewVestaCurve()
+			p, err := c.HashWithDst(dst, msg)
+			if err != nil {
+				return "", "", false, err
+			}
+			x, _ := p.AffineX()
+			y, _ := p.AffineY()
+			ord := new(big.Int).SetBytes(c.Order().Bytes())
+			s, _ := pasta.NewVestaScalarField().FromBytesBE(ord.Sub(ord, big.NewInt(1)).Bytes())
+			return be(x.Bytes()), be(y.Bytes()), p.ScalarMul(s).Add(p).IsZero() && !p.IsZero(), nil
+		}},
+	}
+}
+
 type vecFile struct {
 	Dst     string `json:"dst"`
 	Vectors []struct {
@@ -916,7 +960,7 @@ func main() {
 	}
 
 	// 4. hash to curve: RFC vectors, determinism, DST dependence, subgroup
-	for _, s0 := range suites() {
+	for _, s0 := range append(suites(), moreSuites()...) {
 		s := s0
 		// never panic out of the harness: a panic of the implementation is an observable (an error)
 		rawHash := s0.hash
@@ -927,7 +971,7 @@ func main() {
 			return x, y, sub, err
 		}
 		var vf vecFile
-		if b, err := os.ReadFile(filepath.Join(corpusDir, "rfc9380", s.file)); err == nil && json.Unmarshal(b, &vf) == nil {
+		if b, err := os.ReadFile(filepath.Join(corpusDir, "rfc9380", s.file)); s.hasVec && err == nil && json.Unmarshal(b, &vf) == nil {
 			for vi, v := range vf.Vectors {
 				x, y, sub, err := s.hash(vf.Dst, []byte(v.Msg))
 				res.Count("h2c-vector-"+s.name, s.name+" "+vf.Dst+" "+v.Msg, true)
@@ -935,7 +979,7 @@ func main() {
 					res.Mismatch(vh.Mismatch{ID: fmt.Sprintf("V-%s-%d", s.name, vi), Kind: "prop", Key: "h2c-vector-" + s.name, Detail: fmt.Sprintf("RFC 9380 vector: got (%s,%s) subgroup=%v err=%v want (%s,%s)", x, y, sub, err, normHex(v.P.X), normHex(v.P.Y)), Case: fmt.Sprintf("H %s %s %s", s.name, vh.Hex([]byte(vf.Dst)), vh.Hex([]byte(v.Msg))), PropFail: true, What: "RFC 9380 suite agreement"})
 				}
 			}
-		} else {
+		} else if s.hasVec {
 			res.Note("vectors for %s not loaded: %v", s.name, err)
 		}
 		for i := 0; i < nH; i++ {
